@@ -215,8 +215,8 @@ def _agnostic(check: Check):
       n += 1
       check.analysed(fi)
       ok = s.cls != 'DATA' or s.guard is not None
-      check.ob('R-DIV', fi, txt(s.node)[:90], ok,
-               f'denominator {txt(s.denom)[:50]} is {s.cls} ({s.why}); guard: {s.guard}' +
+      check.ob('R-DIV', fi, '/ ' + txt(s.denom)[:90], ok,
+               f'{txt(s.node)[:80]}: denominator {txt(s.denom)[:50]} is {s.cls} ({s.why}); guard: {s.guard}' +
                ('' if ok else ' - a zero (domain without examples in the window / zero beta) gives inf/NaN weights'), node=s.node)
   check.floor('R-DIV', 'divisions in agnostic_fed_avg', n, 3)
   upd = repo.func(modname, 'update_domain_weights')
@@ -249,23 +249,34 @@ def _agnostic(check: Check):
   sff = FuncFlow.of(repo, su)
   check.analysed(su)
   okw = False
-  for ds in sff.rd.defs_at.values():
-    for d in ds:
-      v = d.value
-      if d.name == 'domain_window' and isinstance(v, ast.BinOp) and isinstance(v.op, ast.Add):
+  okf = False
+  ctor = None
+  for _, rv in sff.returns():
+    if isinstance(rv, ast.Call) and sff.callee(rv).kind == 'class':
+      ctor = rv
+  if ctor is not None:
+    fields = [f for f, _, _ in sff.callee(ctor).cls.fields]
+    b = call_args(ctor, fields)
+    for v in sff.expand(b.get('domain_window')) if b.get('domain_window') is not None else []:
+      if isinstance(v, ast.BinOp) and isinstance(v.op, ast.Add):
         l, r = v.left, v.right
         okw = (isinstance(l, ast.Subscript) and isinstance(l.slice, ast.Slice) and isinstance(l.slice.lower, ast.Constant) and
                l.slice.lower.value == 1 and l.slice.upper is None and txt(l.value).endswith('.domain_window') and
                isinstance(r, ast.List) and len(r.elts) == 1 and sff.param_of(r.elts[0]) == 'sum_domain_num')
+    # field order: params / opt_state from the optimizer results, weights from update_domain_weights
+    sites = sk.opt_apply_sites(sff, None)
+    ok_po = False
+    if len(sites) == 1:
+      oc = sites[0]
+      ok_po = b.get('params') is not None and b.get('opt_state') is not None and sk.derives_from_result(sff, b['params'], oc.res_params) and sk.derives_from_result(
+          sff, b['opt_state'], oc.res_opt)
+    ok_w = any(isinstance(x, ast.Call) and wmean.repo_fn(sff, x) == f'{modname}:update_domain_weights' for x in sff.expand(b['domain_weights'])) if b.get(
+        'domain_weights') is not None else False
+    okf = ok_po and ok_w
   check.ob('R-SIMPLEX.window', su, 'window[1:] + [sum_domain_num]', okw,
            'the window keeps its length: the oldest entry is dropped and this round\'s per-domain counts are appended last')
-  # ServerState fields in order
-  for _, rv in sff.returns():
-    if isinstance(rv, ast.Call) and sff.callee(rv).kind == 'class':
-      fields = [f for f, _, _ in sff.callee(rv).cls.fields]
-      b = call_args(rv, fields)
-      okf = all(isinstance(b.get(f), ast.Name) and b[f].id == f for f in fields)
-      check.ob('R-SIMPLEX.window', su, txt(rv), okf, f'ServerState{tuple(fields)} receives the matching values in field order')
+  check.ob('R-SIMPLEX.window', su, 'ServerState(params, opt_state, domain_weights, domain_window)', okf,
+           'each ServerState field receives its own new value (optimizer results, updated weights, shifted window)')
   # init: window has domain_window_size entries; weights validated to sum to 1
   bld = repo.func(modname, 'agnostic_federated_averaging')
   bff = FuncFlow.of(repo, bld)
